@@ -3,6 +3,10 @@
   (`run_tasks`, `pop_runnable_tasks`, `schedule_tasks_to_be_run`, `handle_task`, `run_task`,
   `skip_task`, `skip_all_tasks`) as a labelled transition system.
 
+  Keyboard interrupt (as repaired by fix D11): `skip_all_tasks` keeps releasing the remaining tasks in
+  dependency order — each round hands every task whose dependencies are completed to the pool for
+  `skip_task` — so a task is queued only when all its dependencies are completed, interrupted run or not.
+
   `step : Graph → Nat → State → Label → Option State` is both the transition relation the theorems
   quantify over (every interleaving = every label sequence it accepts) and the acceptor the driver
   folds over traces observed from the real code.
@@ -50,7 +54,7 @@ structure State (Tid : Type) where
   phase    : Tid → Phase
   result   : Tid → Option Res
   mode     : Tid → Option Mode
-  forced   : Tid → Bool           -- queued by `skip_all_tasks` (keyboard interrupt), dependencies ignored
+  forced   : Tid → Bool           -- released by `skip_all_tasks` (after a keyboard interrupt): goes straight to `skip_task`
   aborted  : Bool                 -- `context.enable_task_abort()` has been called
   -- ghost history
   clock    : Nat
@@ -69,6 +73,16 @@ def popped (g : Graph Tid) (s : State Tid) (n : Nat) : List Tid := (g.tasks.filt
 def dispatch (g : Graph Tid) (s : State Tid) (n : Nat) : State Tid :=
   let p := popped g s n
   { s with phase := fun t => if t ∈ p then .queued else s.phase t }
+
+/-- one round of the loop of `skip_all_tasks` (after a keyboard interrupt):
+    `for task in pop_runnable_tasks(remaining_tasks, completed_tasks, len(remaining_tasks)): apply_async(skip_task, task)`
+    — EVERY task that is runnable now (no worker bound: `len(remaining_tasks)` ≥ the number of runnable
+    tasks) is handed to the pool, marked `forced` (it will be skipped, never run).  Tasks with an uncompleted
+    dependency stay in `remaining_tasks`. -/
+def release (g : Graph Tid) (s : State Tid) : State Tid :=
+  let p := popped g s g.tasks.length
+  { s with phase := fun t => if t ∈ p then .queued else s.phase t
+           forced := fun t => if t ∈ p then true else s.forced t }
 
 def empty : State Tid :=
   { phase := fun _ => .remaining, result := fun _ => none, mode := fun _ => none, forced := fun _ => false,
@@ -91,7 +105,8 @@ inductive Label (Tid : Type)
   | finish (t : Tid) (r : Res)
   /-- the main loop took t from the completion queue and scheduled what became runnable -/
   | receive (t : Tid)
-  /-- `except KeyboardInterrupt` in `run_tasks`: abort flag, everything remaining is queued for `skip_task` -/
+  /-- `except KeyboardInterrupt` in `run_tasks`: abort flag, then the first round of `skip_all_tasks`
+      (every task runnable now is queued for `skip_task`) -/
   | interrupt
 deriving DecidableEq, Repr, Inhabited
 
@@ -130,16 +145,13 @@ def step (g : Graph Tid) (n : Nat) (s : State Tid) : Label Tid → Option (State
   | .receive t =>
     if t ∈ g.tasks ∧ s.phase t = .done then
       let s1 := { s with phase := fun x => if x = t then .completed else s.phase x, clock := s.clock + 1 }
-      -- after an interrupt the main loop is inside `skip_all_tasks`: it only collects completions
-      some (if s.aborted then s1 else dispatch g s1 n)
+      -- after an interrupt the main loop is the one of `skip_all_tasks`: what became runnable is released
+      -- for skipping (all of it, no worker bound), still in dependency order
+      some (if s.aborted then release g s1 else dispatch g s1 n)
     else none
   | .interrupt =>
     if s.aborted = false then
-      some { s with
-        aborted := true
-        forced := fun x => if s.phase x = .remaining then true else s.forced x
-        phase := fun x => if s.phase x = .remaining then .queued else s.phase x
-        clock := s.clock + 1 }
+      some (release g { s with aborted := true, clock := s.clock + 1 })
     else none
 
 /-- `len(completed_tasks) == len(tasks)`: the loop of `run_tasks` (or of `skip_all_tasks`) ends -/
